@@ -129,6 +129,34 @@ def run(rep: Report, tier: str) -> None:  # noqa: C901
     rep.instance("R07.4", "pivot-writes-presence")
     if "_has_col(" not in src(hp.node):
         rep.add(transp.fnd("R07.4", "pivot-writes-presence", hp, hp.node.lineno, "the hierarchy pivot no longer produces the presence columns (_has_<item>)"))
+    # the presence flag is a function of ROW EXISTENCE only: the expression written AS _has_<item> does not read the measure
+    # (COUNT(measure) / MAX(measure IS NOT NULL) would turn "present with a NULL value" into "absent")
+    defs: Dict[str, ast.AST] = {}
+    for n in walk_no_nested(hp.node):
+        if isinstance(n, ast.Assign) and len(n.targets) == 1 and isinstance(n.targets[0], ast.Name):
+            defs.setdefault(n.targets[0].id, n.value)
+    tainted: Set[str] = {nm for nm, v in defs.items() if any(isinstance(x, ast.Attribute) and x.attr in ("get_measures_names", "get_measures") for x in ast.walk(v))}
+    tainted |= {p_ for p_ in hp.params if "measure" in p_.lower()}
+    if not tainted:
+        raise AnalysisError("_build_hr_pivot no longer derives a measure name (get_measures_names / a measure parameter): the presence rule has lost its anchor")
+    changed = True
+    while changed:
+        changed = False
+        for nm, v in defs.items():
+            if nm not in tainted and any(isinstance(x, ast.Name) and x.id in tainted for x in ast.walk(v)):
+                tainted.add(nm)
+                changed = True
+    npres = 0
+    for n in ast.walk(hp.node):
+        if isinstance(n, ast.JoinedStr) and "_has_col(" in src(n):
+            npres += 1
+            used = {x.id for x in ast.walk(n) if isinstance(x, ast.Name)}
+            rep.instance("R07.4", f"presence-expression/{npres}", sample={"expr": src(n)[:100], "reads": sorted(used & tainted)})
+            if used & tainted:
+                rep.add(transp.fnd("R07.4", "presence-reads-measure", hp, n.lineno,
+                                   f"the presence flag of the hierarchy pivot `{src(n)[:90]}` reads the measure ({sorted(used & tainted)}): a code item that is PRESENT with a NULL measure is "
+                                   f"flagged absent, so the *_zero modes replace its NULL by 0 and the partial_* / always_* filters treat it as missing"))
+    rep.floor("R07.4 presence expressions", npres, 1)
     zb = next((n for n in ast.walk(ve.node) if isinstance(n, ast.If) and "mode" in src(n.test)), None)
     rep.instance("R07.4", "zero-substitution-on-absence")
     if zb is None or "_has_col(" not in " ".join(src(x) for x in zb.body):
